@@ -1,6 +1,7 @@
 package extractor
 
 import (
+	"fmt"
 	"regexp"
 	"sort"
 	"strings"
@@ -56,4 +57,14 @@ func sortURLs(urls []*models.URL) {
 	sort.Slice(urls, func(i, j int) bool {
 		return urls[i].Raw < urls[j].Raw
 	})
+}
+
+// recoverDecoderPanic is deferred by the extractors that hand the body to a
+// third-party decoder: a panic raised while decoding a malformed document is
+// returned as that document's error instead of killing the worker goroutine
+// (and with it the process).
+func recoverDecoderPanic(decoder string, err *error) {
+	if r := recover(); r != nil {
+		*err = fmt.Errorf("%s decoder panicked: %v", decoder, r)
+	}
 }
